@@ -20,16 +20,27 @@ from aiohomekit.exceptions import AccessoryDisconnectedError
 ID = "C08"
 RULE = ("interleavings on one connection under virtual time, EXHAUSTIVE to depth 5 (quick) / 6 (thorough) over {request issued by caller k, response delivered whole, response/event first part then remainder, "
         "EVENT delivered, caller cancelled, advance 12 s / 31 s (30 s timer), peer closes, local close(), unsolicited response, reconnect} with up to 3 concurrent callers and concurrency limit 1..3, on a plain "
-        "HomeKitConnection and on the secure session of an IpPairing (real pair-verify, encrypted frames split at arbitrary byte offsets); plus random histories to length 40. "
+        "HomeKitConnection and on the secure session of an IpPairing (real pair-verify, encrypted frames split at arbitrary byte offsets); plus random histories to length 40; "
+        "plus 'waiting' histories (1..3 requests wait while events / partial messages / answers to older requests / unsolicited answers arrive every 5..30 s, past the 30 s timeout) with the per-request deadline oracle "
+        "(issue instant from the accessory-side log: completed or failed no later than 30 s after it was written, and nothing written stays pending beyond that); "
+        "plus stream 'atomic' (implementation-level oracle only: the model's events are single actions): histories of GROUPS of 1..3 actions executed back-to-back inside ONE event-loop iteration, no library task running in between "
+        "(cancel-then-read, timeout-fires-then-read, read-then-cancel, read-then-timeout, two or three messages in one read, partial read, close/reset/local close/issue next to any of them) - all ordered pairs of 15 actions after 6 prefixes, "
+        "sampled triples, random group histories - with limit 1..3, on the plain connection and the secure session, requests entered through get/get_json/put/put_json/post/post_json and pipelined through protocol.send_bytes, "
+        "every response carrying a body of its own so that each completion is attributed from the accessory's own send log. "
         "non-trivial = distinct (variant, limit, history)")
 TRUSTED = ["harness/simnet.py: virtual-time loop, in-memory transport (no data is delivered after close(); an exception escaping data_received closes the transport, as asyncio's selector transport does)",
-           "harness/acc.py scaffold accessory for the secure variant", "asyncio.Semaphore wakes waiters in FIFO order"]
-ASSUMPTIONS = ["one model event = one harness action followed by running the loop to quiescence at that virtual instant",
+           "harness/acc.py scaffold accessory for the secure variant", "asyncio.Semaphore wakes waiters in FIFO order",
+           "atomic stream: asyncio runs the timers due within its clock resolution (1 ns) in one loop iteration, in deadline order (used to place harness actions 2^-32 s before / after a request's 30 s timer)"]
+ASSUMPTIONS = ["one model event = one harness action followed by running the loop to quiescence at that virtual instant (stream 'atomic' lifts this: the actions of a group share one loop iteration; it has no model counterpart and is judged by the oracle alone)",
+               "atomic stream: responses are attributed by byte-stream position - the response whose last byte is read answers the oldest request the accessory has received and not answered at that moment; "
+               "callers enter the secure session only once it is up (no request is issued in the loop iteration that starts a reconnection)",
                "reconnection is refused by the simulated network until the explicit `reconnect` event (C10/C11 cover the supervisor); a request issued while down fails at once",
                "a message whose first part has arrived is completed before the accessory sends anything else (byte-stream order)",
                "HTTP parsing of the delivered bytes is C07's model; here the unit is the complete message"]
 EXPLANATION = ("Lean theorems C08_* over the FIFO attribution automaton HapVerif.ReqConn (in-order answers complete exactly the oldest request, events never complete a request, every abandonment fails all outstanding requests at that instant "
-               "and ignores late data, each request completes at most once and within 30 s of being sent) + differential tie on per-request outcomes, accessory-side request log, event log, virtual completion times")
+               "and ignores late data, each request completes at most once and within 30 s of being sent) + differential tie on per-request outcomes, accessory-side request log, event log, virtual completion times; "
+               "implementation-level oracles from the harness's own bookkeeping: own-response-or-disconnection per request (distinct bodies), abandonment on failure, nothing pending after a loss, 30 s deadline per written request, "
+               "a completely read answer/event reaches its waiting request/the listeners")
 
 
 class Owner:
@@ -71,6 +82,9 @@ async def scenario(loop, variant, limit, events, seed):
     harness_cancelled = set()
     pending_rest = {}
     prefed = {}
+    sent_at = {}       # id -> virtual instant (absolute units) at which the accessory received the request = it was written
+    completed_ids = set()
+    overdue_reported = set()
     if variant == "plain":
         owner = Owner()
         bufs = {}
@@ -82,6 +96,7 @@ async def scenario(loop, variant, limit, events, seed):
                 bufs[t] = rest
                 target = head.split(b" ")[1].decode()
                 sent.append((int(target.rsplit("/", 1)[1]), t.index))
+                sent_at.setdefault(int(target.rsplit("/", 1)[1]), now_units(loop))
         net.handler = on_write
         cur = lambda: (net.open[-1] if net.open else None)  # noqa: E731
         frame = lambda t, b: b  # noqa: E731
@@ -90,6 +105,7 @@ async def scenario(loop, variant, limit, events, seed):
 
         def responder(s, method, target, body):
             sent.append((int(target.rsplit("/", 1)[1]), s.t.index))
+            sent_at.setdefault(int(target.rsplit("/", 1)[1]), now_units(loop))
             return None
         acc.responder = responder
         cur = lambda: (net.open[-1] if net.open else None)  # noqa: E731
@@ -214,6 +230,17 @@ async def scenario(loop, variant, limit, events, seed):
                     problems.append(("wrong-error", f"request {i} failed with {o[6:]} instead of a disconnection error"))
                 if o == "canc" and i not in harness_cancelled:
                     problems.append(("wrong-error", f"request {i} got CancelledError although its caller was not cancelled"))
+                # the property's own bound: a request is completed (response or disconnection error) no later than 30 s of
+                # virtual time after it was written, whatever else arrives on the connection meanwhile
+                completed_ids.add(i)
+                if i in sent_at and (tm + t0) - sent_at[i] > 30 * UNIT + 1:
+                    problems.append(("late-completion", f"request {i} was written at t={(sent_at[i] - t0) / UNIT:.3f}s and completed ({o.split(':')[0]}) only at t={tm / UNIT:.3f}s, "
+                                                        f"{(tm + t0 - sent_at[i]) / UNIT:.3f}s later: the 30 s bound on an unanswered request does not hold"))
+            for i, w in sent_at.items():
+                if i not in completed_ids and i not in overdue_reported and now_units(loop) - w > 30 * UNIT + 1:
+                    overdue_reported.add(i)
+                    problems.append(("hung-past-deadline", f"after {ev} at t={nowu() / UNIT:.3f}s: request {i}, written at t={(w - t0) / UNIT:.3f}s, has neither completed nor failed "
+                                                           f"{(now_units(loop) - w) / UNIT:.3f}s later (up={1 if net.open else 0}): it hangs past its 30 s timeout"))
             if net.errors:
                 errs = [e for e in net.errors if not (e[0] == "data_received" and e[1] == "IndexError")]
                 if errs:
@@ -376,6 +403,45 @@ def gen_random(rng):
     return evs
 
 
+def gen_waiting(rng):
+    """requests that wait for their answer while OTHER traffic keeps arriving on the connection: events, partial
+    messages, answers to older requests, unsolicited answers - every few seconds, past the 30 s timeout"""
+    evs = []
+    rid = 0
+    payload = 100
+    for _ in range(rng.randrange(1, 4)):
+        rid += 1
+        evs.append(f"q:{rid}")
+        if rng.random() < 0.3:
+            evs.append("a:%d" % (rng.choice([1, 5, 12]) * UNIT))
+    for _ in range(rng.randrange(1, 7)):
+        evs.append("a:%d" % rng.choice([5 * UNIT, 12 * UNIT, 20 * UNIT, 25 * UNIT, 29 * UNIT, 30 * UNIT - 1, 18 * UNIT + 2]))
+        r = rng.random()
+        if r < 0.5:
+            evs.append(f"e:{rng.randrange(1, 50)}")
+        elif r < 0.62:
+            evs.append(f"he:{rng.randrange(1, 50)}")
+        elif r < 0.74:
+            payload += 1
+            evs.append(f"hr:{payload}")
+        elif r < 0.84:
+            evs.append("rest")
+        elif r < 0.92:
+            payload += 1
+            evs.append(f"r:{payload}")
+        else:
+            rid += 1
+            evs.append(f"q:{rid}")
+    evs.append("a:%d" % rng.choice([UNIT, 12 * UNIT, 31 * UNIT]))
+    if rng.random() < 0.5:
+        rid += 1
+        evs.append(f"q:{rid}")
+        payload += 1
+        evs.append(f"r:{payload}")
+        evs.append(f"a:{31 * UNIT}")
+    return evs
+
+
 def run_cases(ctx: Ctx, driver: Driver, cases):
     loop = simnet.VLoop()
     asyncio.set_event_loop(loop)
@@ -383,12 +449,33 @@ def run_cases(ctx: Ctx, driver: Driver, cases):
     minimized = {}
     try:
         for i, (variant, limit, events, kind) in enumerate(cases):
-            out, problems = loop.run_until_complete(scenario(loop, variant, limit, events, ctx.seed * 7919 + i))
-            pend = [t for t in asyncio.all_tasks(loop) if not t.done()]
-            for t in pend:
-                t.cancel()
-            if pend:
-                loop.run_until_complete(asyncio.gather(*pend, return_exceptions=True))
+            seed = ctx.seed * 7919 + i
+            if isinstance(kind, tuple):
+                kind, seed = kind
+            try:
+                out, problems = loop.run_until_complete(scenario(loop, variant, limit, events, seed))
+                pend = [t for t in asyncio.all_tasks(loop) if not t.done()]
+                for t in pend:
+                    t.cancel()
+                if pend:
+                    loop.run_until_complete(asyncio.gather(*pend, return_exceptions=True))
+            except RuntimeError as e:
+                if "does not settle" not in str(e):
+                    raise
+                # the library keeps re-scheduling itself with no delay: an observation about the library, not a harness crash
+                ctx.evaluations += 1
+                ctx.violation(f"{variant}/loop-never-idle", "the event loop never became idle at one virtual instant (10000 iterations): callbacks keep re-scheduling themselves with no delay, "
+                              f"no request can complete or fail and virtual time cannot advance [history: {' '.join(events)}]",
+                              {"stream": "reqconn", "variant": variant, "limit": limit, "events": events, "seed": seed})
+                try:
+                    for t in asyncio.all_tasks(loop):
+                        t.cancel()
+                    loop.close()
+                except Exception:  # noqa: BLE001
+                    pass
+                loop = simnet.VLoop()
+                asyncio.set_event_loop(loop)
+                continue
             ctx.evaluations += 1
             ctx.nontrivial.add((variant, limit, tuple(events)))
             ctx.dist[f"variant:{variant}"] += 1
@@ -396,7 +483,7 @@ def run_cases(ctx: Ctx, driver: Driver, cases):
             ctx.dist["kind:" + kind] += 1
             for e in events:
                 ctx.dist["ev:" + e.split(":")[0]] += 1
-            case = {"stream": "reqconn", "variant": variant, "limit": limit, "events": events, "seed": ctx.seed * 7919 + i}
+            case = {"stream": "reqconn", "variant": variant, "limit": limit, "events": events, "seed": seed}
             seen = set()
             for sig, text in problems:
                 if sig not in seen:
@@ -438,7 +525,8 @@ def cases_for(ctx):
     rng = ctx.rng
     cases = []
     for c in load_corpus(ID):
-        cases.append((c["variant"], c["limit"], c["events"], "corpus"))
+        if c.get("stream", "reqconn") == "reqconn":
+            cases.append((c["variant"], c["limit"], c["events"], "corpus"))
     ex = gen_exhaustive(ctx.budget(4, 5), rng, sample=ctx.budget(2500, 40000))
     for i, evs in enumerate(ex):
         if i % 4 == 3:
@@ -451,15 +539,630 @@ def cases_for(ctx):
             cases.append(("secure", 1, evs, "random"))
         else:
             cases.append(("plain", rng.randrange(1, 4), evs, "random"))
+    for i in range(ctx.budget(300, 6000)):
+        evs = gen_waiting(rng)
+        if i % 3 == 0:
+            cases.append(("secure", 1, evs, "waiting"))
+        else:
+            cases.append(("plain", rng.randrange(1, 4), evs, "waiting"))
     return cases
+
+
+# ----------------------------------------------------------------------------------------------------------------
+# stream "atomic": histories of GROUPS of actions.  The actions of one group happen back-to-back, inside ONE event-loop
+# iteration (no task of the library gets to run in between); the loop runs to quiescence only after the group.  asyncio
+# promises nothing about the order of the callbacks of one iteration, so "caller cancelled, then the answer is read, then
+# the cancelled caller's task cleans up" is a schedule like any other.  The model's events are single actions, so this
+# stream is judged by the implementation-level oracle alone, from the harness's own bookkeeping: which request the
+# accessory has received on which connection and when, and which (distinct) answer it sent for which request.
+#
+# primitives (a group is 'x+y+z'):
+#   q:<id>:<m>   a caller issues request <id> through entry point <m>: g get, j get_json, p put, P put_json, o post,
+#                O post_json, s protocol.send_bytes (pipelines past the connection's semaphore)
+#   d:<msgs>[/]  ONE read delivers (whatever is still unread, then) the messages <msgs>, each r = a response with a body of
+#                its own (it answers the oldest request the accessory has received and not answered when its last byte is
+#                read; unsolicited if there is none), e = an EVENT; with '/' only a proper prefix of those bytes is read
+#                now (sometimes the read is split in several)
+#   rest         the unread remainder is read
+#   c:<id>       caller <id> is cancelled
+#   T:<id>       the 30 s timeout of request <id> fires: the actions before it in the group run in the same loop
+#                iteration just before the timer callback, those after it just after (and before the requester's task)
+#   a:<units>    virtual time advances (on its own)
+#   pc pr lc R   peer closes / connection reset / local close() is started / reconnection allowed and requested
+EPS = 2.0 ** -32   # < asyncio's clock resolution (1 ns): timers this close to one another are run in one loop iteration, in deadline order
+ENTRY = {"g": "get", "j": "get_json", "p": "put", "P": "put_json", "o": "post", "O": "post_json", "s": "protocol.send_bytes"}
+
+
+def resp_tagged(tag, pad=0):
+    ctype = b"application/hap+json" + (b"\r\nX-Pad: " + b"p" * pad if pad else b"")
+    return http(json.dumps({"tag": tag}).encode(), ctype)
+
+
+def tag_of(r):
+    try:
+        if isinstance(r, dict):
+            return str(r["tag"])
+        return str(json.loads(bytes(r.body).decode())["tag"])
+    except Exception:  # noqa: BLE001
+        return "?"
+
+
+class HarnessBug(Exception):
+    """a malformed history: the harness's own fault, never reported as a finding"""
+
+
+async def scenario_atomic(loop, variant, limit, groups, seed):
+    rnd = random.Random(seed)
+    net = simnet.Net(loop)
+    problems = []
+    trace = []
+    stats = {}
+    tasks = {}
+    outcome = {}             # id -> (outcome, units)
+    judged = set()
+    reported = set()
+    cancelled_by_harness = set()
+    issued = []
+    written = {}             # id -> (transport, loop.time()) when the accessory received the request
+    acc_queue = {}           # transport -> ids received and not yet answered (the accessory answers in order)
+    sent_for = {}            # id -> tag of the answer the accessory sent for it
+    tag_owner = {}           # tag -> id (None: unsolicited)
+    unread = {}              # transport -> bytes the accessory has sent and the controller has not read yet
+    marks = {}               # transport -> [(end offset, kind, ident)] of messages not completely read yet
+    gen_off = {}
+    fed_off = {}
+    expect_ok = {}           # id -> instant at which its own answer was completely read while it was still waiting
+    ev_sent = []
+    ev_definite = set()
+    events_seen = []
+    harness_errors = []
+    group_state = {}
+    counter = itertools.count(1)
+
+    def bump(k):
+        stats[k] = stats.get(k, 0) + 1
+
+    def units(x=None):
+        return int(round((loop.time() if x is None else x) * UNIT))
+
+    def received(t, target):
+        try:
+            rid = int(target.rsplit("/", 1)[1])
+        except ValueError:
+            return
+        acc_queue.setdefault(t, []).append(rid)
+        written.setdefault(rid, (t, loop.time()))
+
+    if variant == "plain":
+        owner = Owner()
+        bufs = {}
+
+        def on_write(t, data):
+            bufs[t] = bufs.get(t, b"") + data
+            while True:
+                b = bufs[t]
+                i = b.find(b"\r\n\r\n")
+                if i < 0:
+                    return
+                head = b[:i].split(b"\r\n")
+                cl = 0
+                for h in head[1:]:
+                    if h.lower().startswith(b"content-length:"):
+                        cl = int(h.split(b":")[1])
+                if len(b) < i + 4 + cl:
+                    return
+                bufs[t] = b[i + 4 + cl:]
+                received(t, head[0].split(b" ")[1].decode())
+        net.handler = on_write
+        frame = lambda t, b: b  # noqa: E731
+    else:
+        acc = Accessory(loop, net, lambda n: bytes(rnd.randrange(256) for _ in range(n)))
+
+        def responder(s, method, target, body):
+            received(s.t, target)
+            return None
+        acc.responder = responder
+        frame = lambda t, b: acc.frame(acc.sessions[t], b)  # noqa: E731
+    cur = lambda: (net.open[-1] if net.open else None)  # noqa: E731
+
+    with net.patched():
+        if variant == "plain":
+            conn = HomeKitConnection(owner, ["10.0.0.1"], 80, concurrency_limit=limit)
+
+            def plain_event(parsed):
+                for c in parsed.get("characteristics", []):
+                    events_seen.append(c["iid"])
+            owner.event_received = plain_event
+        else:
+            ctrl = MagicMock()
+            ctrl._char_cache = CharacteristicCacheMemory()
+            p = IpPairing(ctrl, acc.pairing_data(["10.0.0.1"]))
+            conn = p.connection
+
+            def listener(ev):
+                for (aid, iid) in ev:
+                    events_seen.append(iid)
+            p.dispatcher_connect(listener)
+        await conn.ensure_connection()
+        await settle(loop)
+        t0 = units()
+        net.connect_outcomes = ["refused"] * 100000
+
+        async def caller(rid, m):
+            target = f"/r/{rid}"
+            try:
+                if m == "g":
+                    r = await conn.get(target)
+                elif m == "j":
+                    r = await conn.get_json(target)
+                elif m == "p":
+                    r = await conn.put(target, b'{"v":%d}' % rid)
+                elif m == "P":
+                    r = await conn.put_json(target, {"v": rid})
+                elif m == "o":
+                    r = await conn.post(target, b"\x01\x01\x00")
+                elif m == "O":
+                    r = await conn.post_json(target, {"v": rid})
+                else:
+                    proto = conn.protocol
+                    if proto is None:
+                        # nothing to send on: the caller's own view of "not connected"
+                        raise AccessoryDisconnectedError("no protocol")
+                    r = await proto.send_bytes(f"GET {target} HTTP/1.1\r\nHost: 10.0.0.1\r\n\r\n".encode())
+                out = "ok:" + tag_of(r)
+            except AccessoryDisconnectedError:
+                out = "disc"
+            except asyncio.CancelledError:
+                outcome.setdefault(rid, ("canc", units()))
+                raise
+            except BaseException as e:  # noqa: BLE001
+                out = "other:" + type(e).__name__
+            outcome.setdefault(rid, (out, units()))
+
+        def timed_out(rid):
+            """the 30 s timer of this request has fired (loop.time() stands still within one loop iteration, so the timers
+            of the iteration a T-composite runs in are tracked by the composite itself)"""
+            w = written[rid][1]
+            return loop.time() - w >= 30 or (group_state.get("fired_at") is not None and w + 30 <= group_state["fired_at"])
+
+        def gave_up_not_cleaned():
+            """a request whose future was completed by a cancellation or the timeout while its task has not run yet"""
+            for rid, (t, w) in written.items():
+                tk = tasks.get(rid)
+                if tk is not None and not tk.done() and rid not in outcome and not (t.closing or t.closed):
+                    if rid in cancelled_by_harness or timed_out(rid):
+                        return True
+            return False
+
+        def feed(t, chunk):
+            if t.closing or t.closed or not chunk:
+                return
+            if gave_up_not_cleaned():
+                bump("read-after-give-up-before-cleanup")
+            n_exc = len(net.data_received_raised)
+            # requests that are waiting for their answer right now, with a margin before their timeout
+            waiting = {rid for rid in written if rid not in outcome and rid not in cancelled_by_harness and tasks.get(rid) is not None and not tasks[rid].done()
+                       and loop.time() - written[rid][1] < 30 - 4 * EPS and not timed_out(rid) and written[rid][0] is t}
+            t.feed(chunk)
+            raised = len(net.data_received_raised) > n_exc
+            fed_off[t] = fed_off.get(t, 0) + len(chunk)
+            rest_ = []
+            for end, kind, ident in marks.get(t, []):
+                if end > fed_off[t]:
+                    rest_.append((end, kind, ident))
+                elif kind == "e":
+                    if not raised:  # (a read that made data_received raise takes the connection down: nothing is demanded of it)
+                        ev_definite.add(ident)
+                else:
+                    # the accessory answers in order, and responses are matched by their position in the byte stream: the
+                    # response whose last byte is read now is the answer to the oldest request the accessory has received
+                    # and not answered - or an unsolicited one if there is none
+                    q = acc_queue.get(t) or []
+                    if q:
+                        rid = q.pop(0)
+                        sent_for[rid] = ident
+                        tag_owner[ident] = rid
+                        if rid in waiting and not raised:
+                            expect_ok[rid] = units()
+                    else:
+                        tag_owner[ident] = None
+                        bump("unsolicited")
+            marks[t] = rest_
+
+        def make(t, kind):
+            n = next(counter)
+            if kind == "r":
+                tag = f"B{n}"
+                raw = resp_tagged(tag, rnd.choice([0, 0, 0, 0, 1100, 2300]))
+                ident = tag
+            else:
+                iid = 1000 + n
+                ev_sent.append(iid)
+                raw = event_bytes(iid)
+                ident = iid
+            data = frame(t, raw)
+            gen_off[t] = gen_off.get(t, 0) + len(data)
+            marks.setdefault(t, []).append((gen_off[t], kind, ident))
+            return data
+
+        def act(prim):
+            f = prim.split(":")
+            k = f[0]
+            t = cur()
+            if k == "q":
+                rid = int(f[1])
+                if rid in tasks:
+                    return
+                if variant == "secure" and group_state.get("reconnecting"):
+                    # the session is being set up in this very loop iteration: callers use a connection once it is up
+                    # (IpPairing gates every request on is_connected), not in the middle of its pair-verify
+                    bump("noop")
+                    return
+                issued.append(rid)
+                tasks[rid] = asyncio.ensure_future(caller(rid, f[2] if len(f) > 2 else "g"))
+            elif k == "d":
+                if t is None or t.closing or t.closed:
+                    bump("noop")
+                    return
+                spec = f[1]
+                partial = spec.endswith("/")
+                data = unread.pop(t, b"")
+                for ch in spec.rstrip("/"):
+                    data += make(t, ch)
+                if partial and len(data) > 1:
+                    c = rnd.randrange(1, len(data))
+                    unread[t] = data[c:]
+                    data = data[:c]
+                cuts = sorted(rnd.sample(range(1, len(data)), min(rnd.choice([0, 0, 0, 1, 3]), len(data) - 1)))
+                prev = 0
+                for c in cuts + [len(data)]:
+                    feed(t, data[prev:c])
+                    prev = c
+            elif k == "rest":
+                if t is not None and t in unread:
+                    feed(t, unread.pop(t))
+            elif k == "c":
+                tk = tasks.get(int(f[1]))
+                if tk is not None and not tk.done():
+                    cancelled_by_harness.add(int(f[1]))
+                    tk.cancel()
+            elif k == "pc":
+                if t is not None:
+                    t.peer_close()
+            elif k == "pr":
+                if t is not None:
+                    t.peer_reset()
+            elif k == "lc":
+                tasks[("lc", len(tasks))] = asyncio.ensure_future(conn.close())
+            elif k == "R":
+                if not net.open:
+                    net.connect_outcomes = ["ok"] + ["refused"] * 100000
+                    group_state["reconnecting"] = True
+                    conn.reconnect_soon()
+            elif k == "T":
+                pass  # its timer is not pending (any more): nothing to fire
+            else:
+                raise HarnessBug(prim)
+
+        def act_all(prims):
+            try:
+                for x in prims:
+                    act(x)
+            except Exception as e:  # noqa: BLE001
+                harness_errors.append(e)
+
+        def flag(sig, key, text):
+            if (sig, key) not in reported:
+                reported.add((sig, key))
+                problems.append((sig, text))
+
+        def judge(label):
+            now = loop.time()
+            for rid, tk in tasks.items():
+                if isinstance(rid, int) and tk.done() and rid not in outcome:
+                    # the task ended without running the caller's body (cancelled before its first step)
+                    outcome[rid] = ("canc" if tk.cancelled() else "other:task-ended", units())
+            obs = []
+            for rid in issued:
+                if rid in outcome and rid not in judged:
+                    judged.add(rid)
+                    out, tm = outcome[rid]
+                    obs.append(f"D{rid}={out}@{(tm - t0) / UNIT:g}s")
+                    bump("outcome:" + out.split(":")[0])
+                    if out.startswith("other"):
+                        flag("wrong-error", rid, f"request {rid} failed with {out[6:]} instead of a disconnection error")
+                    if out == "canc" and rid not in cancelled_by_harness:
+                        flag("wrong-error", rid, f"request {rid} got CancelledError although its caller was not cancelled")
+                    if out.startswith("ok:"):
+                        tag = out[3:]
+                        if sent_for.get(rid) != tag:
+                            if tag_owner.get(tag) is not None:
+                                flag("misattributed", rid, f"request {rid} completed with the response the accessory sent for request {tag_owner[tag]} (body tag {tag}); "
+                                     + (f"its own response was {sent_for[rid]}" if rid in sent_for else "the accessory had not answered it"))
+                            elif tag in tag_owner:
+                                flag("completed-with-unsolicited", rid, f"request {rid} completed with an unsolicited response (body tag {tag}) the accessory sent when it had no unanswered request")
+                            else:
+                                flag("completed-with-unknown", rid, f"request {rid} completed with a response the accessory never sent (body tag {tag!r})")
+                    if rid in written:
+                        t, w = written[rid]
+                        if tm - units(w) > 30 * UNIT + 1:
+                            flag("late-completion", rid, f"request {rid} was written at t={(units(w) - t0) / UNIT:.3f}s and completed ({out.split(':')[0]}) only {(tm - units(w)) / UNIT:.3f}s later: "
+                                 "the 30 s bound on an unanswered request does not hold")
+                        if not out.startswith("ok:") and not t.closed:
+                            flag("not-abandoned", rid, f"request {rid} failed ({out}) while in flight but its connection was not abandoned: a late response would be taken for a later request")
+                    if rid in expect_ok and not out.startswith("ok:") and rid not in cancelled_by_harness:
+                        flag("response-lost", rid, f"the response for request {rid} was read completely at t={(expect_ok[rid] - t0) / UNIT:.3f}s while the request was waiting for it, but the request ended with {out}")
+            for rid in issued:
+                if rid in outcome:
+                    continue
+                if rid in written:
+                    t, w = written[rid]
+                    if t.closed:
+                        flag("hung-after-loss", rid, f"after {label}: the connection request {rid} was sent on is gone but the request neither completed nor failed")
+                    if units(now) - units(w) > 30 * UNIT + 1:
+                        flag("hung-past-deadline", rid, f"after {label} at t={(units(now) - t0) / UNIT:.3f}s: request {rid}, written at t={(units(w) - t0) / UNIT:.3f}s, has neither completed nor failed "
+                             f"{(units(now) - units(w)) / UNIT:.3f}s later: it hangs past its 30 s timeout")
+                if rid in expect_ok:
+                    flag("response-lost", rid, f"after {label}: the response for request {rid} was read completely while the request was waiting for it, but the request is still pending")
+                if not net.open:
+                    flag("hung-after-loss", rid, f"after {label}: no connection is up but request {rid} is still pending")
+            # events: every EVENT read completely on a live connection reaches the listener exactly once, in order
+            pos = {e: i for i, e in enumerate(ev_sent)}
+            if len(set(events_seen)) != len(events_seen):
+                flag("event-duplicated", 0, f"after {label}: listener saw {events_seen}")
+            if any(e not in pos for e in events_seen):
+                flag("event-unknown", 0, f"after {label}: listener saw an event the accessory never sent: {events_seen} vs {ev_sent}")
+            elif [pos[e] for e in events_seen] != sorted(pos[e] for e in events_seen):
+                flag("event-reordered", 0, f"after {label}: listener saw {events_seen}, sent {ev_sent}")
+            missing = [e for e in ev_sent if e in ev_definite and e not in events_seen]
+            if missing:
+                flag("event-lost", missing[0], f"after {label}: EVENT(s) {missing} were read completely on a live connection but no listener saw them")
+            if net.errors:
+                errs = [e for e in net.errors if not (e[0] == "data_received" and e[1] == "IndexError")]
+                if errs:
+                    flag("callback-raised", str(errs[0]), f"after {label}: {errs[0]}")
+                del net.errors[:]
+            trace.append(f"{label} -> " + (" ".join(obs) or "-") + f" | up={1 if net.open else 0} t={(units(now) - t0) / UNIT:g}s")
+
+        for g in groups:
+            prims = g.split("+")
+            group_state.clear()
+            ti = None
+            for i, x in enumerate(prims):
+                if x.startswith("T:"):
+                    rid = int(x.split(":")[1])
+                    if rid in written and rid not in outcome and written[rid][1] + 30 > loop.time() + 2 * EPS:
+                        ti = i
+                        break
+            if ti is not None:
+                target = written[int(prims[ti].split(":")[1])][1] + 30
+                pre, post = prims[:ti], prims[ti + 1:]
+                fin = loop.create_future()
+                if pre:
+                    loop.call_at(target - EPS, act_all, pre)
+
+                def after(post=post, target=target):
+                    group_state["fired_at"] = target
+                    act_all(post)
+                loop.call_at(target + EPS, after)
+                loop.call_at(target + EPS, lambda fin=fin: fin.done() or fin.set_result(None))
+                bump("timeout-composite")
+                await fin
+            else:
+                run = []
+                for x in prims:
+                    if x.startswith("a:"):
+                        act_all(run)
+                        run = []
+                        await asyncio.sleep(int(x.split(":")[1]) / UNIT)
+                    else:
+                        run.append(x)
+                act_all(run)
+            if harness_errors:
+                raise harness_errors[0]
+            await settle(loop)
+            for tr in list(unread):
+                if tr.closing or tr.closed:
+                    del unread[tr]
+            judge(g)
+        for tk in tasks.values():
+            tk.cancel()
+        await conn.close()
+        await settle(loop)
+    return trace, problems, stats
+
+
+ATOMS = ["q", "d:r", "d:rr", "d:e", "d:er", "d:re", "d:r/", "rest", "c:1", "c:2", "T:1", "T:2", "pc", "pr", "lc"]
+TAIL = ["d:r", "q", "d:r", f"a:{31 * UNIT}"]
+
+
+def number_requests(groups, rng, start=0, methods="gjpPoOssss"):
+    """give every bare 'q' its id and an entry point"""
+    rid = start
+    out = []
+    for g in groups:
+        prims = []
+        for x in g.split("+"):
+            if x == "q":
+                rid += 1
+                x = f"q:{rid}:{rng.choice(methods)}"
+            prims.append(x)
+        out.append("+".join(prims))
+    return out
+
+
+def prefixes():
+    return [["q", "q"], ["q+q+q"], ["q", f"a:{12 * UNIT}", "q"], ["q", "q", "d:r/"], ["q", f"a:{29 * UNIT}", "q", "q"], ["q", "q+d:e/"]]
+
+
+def gen_atomic_pairs():
+    for pi, pre in enumerate(prefixes()):
+        for x in ATOMS:
+            for y in ATOMS:
+                if x == y and x in ("pc", "pr", "lc", "rest"):
+                    continue
+                yield pi, pre + [x + "+" + y] + TAIL
+
+
+def gen_atomic_triples(rng, n):
+    pres = prefixes()
+    for _ in range(n):
+        pre = rng.choice(pres)
+        yield pre + ["+".join(rng.choice(ATOMS) for _ in range(3))] + TAIL
+
+
+def gen_atomic_random(rng):
+    groups = []
+    nq = 0
+    for _ in range(rng.randrange(1, 4)):
+        groups.append("q")
+        nq += 1
+        if rng.random() < 0.25:
+            groups.append("a:%d" % rng.choice([UNIT, 12 * UNIT, 29 * UNIT]))
+    singles = ["q", "q", "d:r", "d:r", "d:e", "d:rr", "d:re", "d:er", "d:r/", "d:e/", "d:rer", "rest", "c", "c", "T", "T", "pc", "pr", "lc", "R"]
+    for _ in range(rng.randrange(2, 12)):
+        r = rng.random()
+        if r < 0.2:
+            groups.append("a:%d" % rng.choice([UNIT, 5 * UNIT, 12 * UNIT, 20 * UNIT, 29 * UNIT, 31 * UNIT, 18 * UNIT + 2]))
+            continue
+        k = 1 if r < 0.5 else (2 if r < 0.85 else 3)
+        prims = []
+        for _ in range(k):
+            x = rng.choice(singles)
+            if x == "q":
+                nq += 1
+            elif x in ("c", "T"):
+                x = f"{x}:{rng.randrange(1, nq + 1)}"
+            prims.append(x)
+        groups.append("+".join(prims))
+    return groups
+
+
+def atomic_cases(ctx, rng, factor=1):
+    cases = []
+    for c in load_corpus(ID):
+        if c.get("stream") == "atomic":
+            cases.append((c["variant"], c["limit"], c["groups"], "corpus"))
+    pairs = list(gen_atomic_pairs())
+    # the pairs after the plainest prefix (two requests issued one after the other) are always run in full, with the two
+    # requests in flight together (limit 2..3, or pipelined through send_bytes on a limit-1 connection); the rest is sampled
+    core = [g for pi, g in pairs if pi == 0]
+    for i, g in enumerate(core):
+        cases.append(("plain", 2 + i % 2, number_requests(g, rng, methods="gjpPoOs"), "pairs"))
+    others = [g for pi, g in pairs if pi != 0]
+    take = ctx.budget(500 * factor, len(others) * 3)
+    for i in range(take):
+        g = others[i % len(others)] if take >= len(others) else rng.choice(others)
+        if i % 5 == 4:
+            cases.append(("secure", 1, number_requests(g, rng, methods="ssssgjP"), "pairs"))
+        else:
+            cases.append(("plain", 1 + i % 3, number_requests(g, rng), "pairs"))
+    for i, g in enumerate(gen_atomic_triples(rng, ctx.budget(300 * factor, 12000))):
+        if i % 5 == 4:
+            cases.append(("secure", 1, number_requests(g, rng, methods="ssssgjP"), "triples"))
+        else:
+            cases.append(("plain", 1 + i % 3, number_requests(g, rng), "triples"))
+    for i in range(ctx.budget(400 * factor, 10000)):
+        g = gen_atomic_random(rng)
+        if i % 5 == 4:
+            cases.append(("secure", 1, number_requests(g, rng, methods="ssssgjP"), "random"))
+        else:
+            cases.append(("plain", rng.randrange(1, 4), number_requests(g, rng), "random"))
+    return cases
+
+
+def run_atomic(ctx: Ctx, cases, base=1000003):
+    holder = [simnet.VLoop()]
+    asyncio.set_event_loop(holder[0])
+    minimized = {}
+    found = []
+
+    def once(variant, limit, groups, seed):
+        loop = holder[0]
+        try:
+            out = loop.run_until_complete(scenario_atomic(loop, variant, limit, groups, seed))
+            pend = [t for t in asyncio.all_tasks(loop) if not t.done()]
+            for t in pend:
+                t.cancel()
+            if pend:
+                loop.run_until_complete(asyncio.gather(*pend, return_exceptions=True))
+            return out
+        except HarnessBug:
+            raise
+        except Exception as e:  # noqa: BLE001
+            # the scenario itself could not be run to its end (the loop never became idle at some virtual instant, or a
+            # library call made from the harness raised): that is an observation about the library, not a harness crash.
+            # The loop may hold self-re-arming callbacks: continue on a fresh one.
+            try:
+                for t in asyncio.all_tasks(loop):
+                    t.cancel()
+                loop.close()
+            except Exception:  # noqa: BLE001
+                pass
+            holder[0] = simnet.VLoop()
+            asyncio.set_event_loop(holder[0])
+            if isinstance(e, RuntimeError) and "does not settle" in str(e):
+                return [], [("loop-never-idle", "the event loop never became idle at one virtual instant (10000 iterations): callbacks keep re-scheduling themselves with no delay, "
+                                                "no request can complete or fail and virtual time cannot advance")], {}
+            return [], [("scenario-raised", f"{type(e).__name__}: {e} escaped from a library call made by the harness")], {}
+    try:
+        for i, (variant, limit, groups, kind) in enumerate(cases):
+            seed = ctx.seed * 7919 + base + i if not isinstance(kind, tuple) else kind[1]
+            kind = kind if not isinstance(kind, tuple) else kind[0]
+            trace, problems, stats = once(variant, limit, groups, seed)
+            ctx.evaluations += 1
+            ctx.nontrivial.add(("atomic", variant, limit, tuple(groups)))
+            ctx.dist[f"atomic:variant:{variant}"] += 1
+            ctx.dist[f"atomic:limit:{limit}"] += 1
+            ctx.dist["atomic:kind:" + kind] += 1
+            for g in groups:
+                prims = g.split("+")
+                ctx.dist["atomic:group-size:%d" % len(prims)] += 1
+                for x in prims:
+                    f = x.split(":")
+                    ctx.dist["atomic:act:" + f[0]] += 1
+                    if f[0] == "q":
+                        ctx.dist["atomic:entry:" + ENTRY.get(f[2] if len(f) > 2 else "g", "?")] += 1
+            for k, v in stats.items():
+                ctx.dist["atomic:" + k] += v
+            case = {"stream": "atomic", "variant": variant, "limit": limit, "groups": groups, "seed": seed}
+            if i in (7, len(cases) - 1):
+                ctx.sample(case)
+            seen = set()
+            for sig, text in problems:
+                if sig in seen:
+                    continue
+                seen.add(sig)
+                vcase = dict(case)
+                if sig not in minimized and len(minimized) < 4:
+                    def still(gs, sig=sig):
+                        _, pr, _ = once(variant, limit, gs, seed)
+                        return any(s2 == sig for s2, _ in pr)
+                    small = shrink_list(groups, still)
+                    minimized[sig] = small
+                    vcase["minimized_groups"] = small
+                    text = text + f" [minimal history: {' ; '.join(small)}]"
+                text = text + f" [limit={limit}; history: {' ; '.join(trace)}]"
+                found.append(sig)
+                ctx.violation(f"{variant}/atomic/{sig}", text, vcase)
+    finally:
+        asyncio.set_event_loop(None)
+        holder[0].close()
+    return found
 
 
 def run(ctx: Ctx, driver: Driver):
     run_cases(ctx, driver, cases_for(ctx))
+    run_atomic(ctx, atomic_cases(ctx, ctx.rng))
 
 
 def replay(ctx: Ctx, driver: Driver, case):
-    run_cases(ctx, driver, [(case["variant"], case["limit"], case["events"], "replay")])
+    n = len(ctx.violations)
+    if case.get("stream") == "atomic":
+        run_atomic(ctx, [(case["variant"], case["limit"], case["groups"], ("replay", case["seed"]))])
+    else:
+        run_cases(ctx, driver, [(case["variant"], case["limit"], case["events"], ("replay", case["seed"]) if "seed" in case else "replay")])
+    return [v["signature"] + ": " + v["what"] for v in ctx.violations[n:]]
 
 
 def search(ctx: Ctx, driver: Driver, broken):
@@ -468,4 +1171,9 @@ def search(ctx: Ctx, driver: Driver, broken):
     for i in range(ctx.budget(4000, 40000)):
         evs = gen_random(rng)
         cases.append(("secure", 1, evs, "search") if i % 3 == 0 else ("plain", rng.randrange(1, 4), evs, "search"))
+    for i in range(ctx.budget(1500, 15000)):
+        evs = gen_waiting(rng)
+        cases.append(("secure", 1, evs, "search") if i % 3 == 0 else ("plain", rng.randrange(1, 4), evs, "search"))
     run_cases(ctx, driver, cases)
+    if not ctx.violations:
+        run_atomic(ctx, atomic_cases(ctx, rng, factor=4), base=2000003)
